@@ -347,3 +347,62 @@ def c09(run):
     run.assumptions = ['internal buffer sizes (512, 1024, 8192) are used only to choose interesting schedule sizes; no verdict depends on them',
                        'randomness is fixed by seeding so that builder output is comparable byte for byte']
     run.notes['trusted_base'] = TRUSTED
+
+
+# ---------------------------------------------------------------------------
+# C01  message round trip
+
+def builder_cfg(ciphers, chunks, partials, maxsize, invs):
+    q = lambda xs: '{' + ', '.join('"%s"' % x for x in xs) + '}'
+    return f"""CONSTANTS
+  Ciphers1 = {q(ciphers)}
+  Chunks2 = {st(chunks)}
+  Partials = {st(partials)}
+  MaxSize = {maxsize}
+SPECIFICATION GSpec
+INVARIANTS {invs}
+CHECK_DEADLOCK FALSE
+"""
+
+
+ALL_CIPHERS = ['idea', 'tripledes', 'cast5', 'blowfish', 'aes128', 'aes192', 'aes256', 'twofish', 'camellia128', 'camellia192', 'camellia256']
+
+
+@prop('C01', 'model_checking')
+def c01(run):
+    # the layers a message is made of are model-checked in their own modules (bounded here, deeper in C17/C03/C09)
+    tags = [8, 11, 18]
+    run.mc('MCFraming', framing_cfg([0, 9, 10], [0, 1, 191, 192], 2, tags, 'ReaderComplete ReaderSound NeverMisSplit WriterLegal', encmax=9000), name='mc_framing')
+    run.mc('MCAeadStream', aead_cfg(3, 2, range(0, 10), True, 1, 0, invs='RoundTrip IdentityNeverErrs NoCleanEOF'), name='mc_aead')
+    run.mc('MCCfbMdc', cfb_cfg(3, 3, 8, range(0, 12), ['checkfirst', 'streaming'], 12, True, 1, invs='RoundTrip IdentityOk NoCleanEOF'), name='mc_cfb')
+    run.mc('MCStages', stages_cfg(6, 3, 'short', True), name='mc_stage')
+    ciphers = run.q(['aes128', 'cast5', 'twofish', 'camellia256'], ALL_CIPHERS)
+    chunks = run.q([0, 6], [0, 1, 4, 6, 10, 14])
+    partials = run.q([0, 512, 4096], [0, 512, 1024, 4096, 65536, 1048576])
+    g = run.mc('MCBuilderConfig', builder_cfg(ciphers, chunks, partials, run.q(9000, 70000), 'NestingSane GenPairs GenSweeps'), name='gen',
+               workers=1, timeout=900)
+    cases = g.cases
+    if run.replay and run.replay.get('source_case'):
+        cases = [run.replay['source_case']]
+    for i, c in enumerate(cases):
+        c['ci'] = i
+    body, summary, oks = run.harness('c01', cases, timeout=3400)
+    run.distinct_nontrivial = summary['extra']['nontrivial']
+    run.traces_validated = summary['evaluations']
+    run.exhaustive = False
+    run.notes['configurations'] = len([c for c in cases if c['kind'] == 'pair'])
+    run.notes['sweep_configurations'] = len([c for c in cases if c['kind'] == 'sweep'])
+    run.rule = ('BuilderConfig.tla defines the configuration space (source kind, data mode, partial chunk size, compression, 0..3 signers x '
+                'key x hash, text/binary signatures, none|SEIPDv1 x ciphers|SEIPDv2 x 3 ciphers x 3 modes x chunk sizes, passwords x S2K, '
+                'public-key recipients incl. anonymous, armor), the validity oracle and the expected packet nesting. TLC emits every '
+                'configuration that differs from the base in at most two dimensions (all pairs of values of all pairs of dimensions) '
+                'with its boundary payload sizes, plus sweep configurations run over EVERY payload length in windows around the partial, '
+                'AEAD-chunk and 8 KiB buffer edges. Each (configuration, size) is built with the real builder, deframed '
+                'independently (outer nesting as predicted, legal framing) and read back through every opener (session key, each password, '
+                'each recipient key): payload, metadata and all signatures must come back. The layer machines (Framing, AeadStream, '
+                'CfbMdc, Stages) are model-checked in the same run. non-trivial = (configuration, size) work items')
+    run.add_samples([c for c in cases if c['kind'] == 'pair'][40:42] + [c for c in cases if c['kind'] == 'sweep'][:1])
+    run.add_samples(oks[:2])
+    run.assumptions = ['pairwise (2-way) coverage of the configuration dimensions around a base configuration; higher-order interactions are only sampled by the sweep configurations',
+                       SYMBOLIC]
+    run.notes['trusted_base'] = TRUSTED
